@@ -65,7 +65,7 @@ func nullProjection(g *ssa.Function) bool {
 	var nullConst *ssa.Const
 	if n, ok := prm.Type().(*types.Named); ok {
 		for i := 0; i < n.NumMethods(); i++ {
-			if m := n.Method(i); m.Name() == "isNull" || m.Name() == "IsNull" {
+			if m := n.Method(i); m.Name() == "isNull" || m.Name() == "IsNull" || isNullPredFn(g.Prog.FuncValue(m)) {
 				if mf := g.Prog.FuncValue(m); mf != nil && mf.Blocks != nil {
 					eachInstr(mf, func(in ssa.Instruction) {
 						if b, ok := in.(*ssa.BinOp); ok && b.Op == token.EQL {
@@ -302,7 +302,7 @@ func evalKernelWorld(fn *ssa.Function, src []*ssa.Parameter, bIdx *ssa.Parameter
 	}
 	pe.oracle = func(pe *pathExec, cond ssa.Value) (bool, bool) { return pe.evalBool(cond, atom) }
 	pe.inline = func(callee *ssa.Function) bool {
-		if callee.Pkg != fn.Pkg || callee.Name() == "isNull" || callee.Name() == "IsNull" || callee.Name() == "compVal" {
+		if callee.Pkg != fn.Pkg || callee.Name() == "isNull" || callee.Name() == "IsNull" || isNullPredFn(callee) || nullProjection(callee) {
 			return false
 		}
 		if r := callee.Signature.Results(); r.Len() == 2 {
@@ -2352,7 +2352,7 @@ func runR94(c *Ctx) {
 		c.undecided("internal/ecolumn|strict flag", "-", "no store to a field named strict")
 	}
 	// (b)
-	fn := p.Func("internal/ecolumn", "equalTypes")
+	fn := p.anchorEnumEqualTypes()
 	if fn == nil || len(fn.Params) != 2 {
 		c.undecided("internal/ecolumn.equalTypes", "-", "not found")
 		return
@@ -3061,7 +3061,7 @@ func init() {
 
 func runR111(c *Ctx) {
 	p := c.P
-	fn := p.Func("internal/strings", "isQuoted")
+	fn := p.anchorIsQuoted()
 	if fn == nil || len(fn.Params) != 1 {
 		c.undecided("internal/strings.isQuoted", "-", "not found")
 		return
